@@ -8,8 +8,8 @@ from . import c01, campaign, engine, fmt, gen, segs, stages
 
 LEVEL = 'proof'
 PID = 'C13'
-WEIGHTS = {'rect': 0.25, 'oct': 0.3, 'share': 0.2, 'lat': 0.1, 'gp': 0.1, 'degen': 0.05, 'boxes': 0.05, 'straddle': 0.08, 'fan': 0.03}
-EXACT = ('rect', 'oct', 'share')
+WEIGHTS = {'rect': 0.25, 'oct': 0.3, 'share': 0.2, 'lat': 0.1, 'gp': 0.1, 'degen': 0.05, 'boxes': 0.05, 'straddle': 0.08, 'fan': 0.03, 'tjo': 0.2, 'abut': 0.06, 'punch': 0.05}
+EXACT = ('rect', 'oct', 'share', 'tjo', 'abut', 'punch', 'boxes')
 
 
 def input_edges(o):
@@ -156,11 +156,19 @@ def run(rep, tier, seed):
             scaled.append(bc.Case(c.cid + 'z', c.family, c.prec, c.op, map_operand(c.lhs, lambda x, y: (x * f, y * f)),
                                   map_operand(c.rhs, lambda x, y: (x * f, y * f)), dict(c.meta, scale_log2=k)))
     cases = cases + scaled
+    # the single-precision instantiation on the one-ulp-bump family (either side of x = 0), and rings with repeated vertices
+    cases += campaign.make_cases(rng, 25 if tier == 'quick' else 600, {'ulp32': 0.7, 'oct': 0.3}, prec=32, prefix='s')
+    rep_cases = []
+    for c in cases:
+        if c.prec == 64 and c.meta.get('pair', 0) % 5 == 1 and c.family in EXACT:
+            rep_cases.append(bc.Case(c.cid + 'w', c.family, c.prec, c.op, gen.with_repeats(rng, c.lhs), gen.with_repeats(rng, c.rhs),
+                                     dict(c.meta, repeats=True)))
+    cases += rep_cases
     lines, meta = [], []
     for c in cases:
-        lines.append(fmt.stage_line('fillq', c.cid + 'q', 64, 'r', c.op, c.lhs, c.rhs))
+        lines.append(fmt.stage_line('fillq', c.cid + 'q', c.prec, 'r', c.op, c.lhs, c.rhs))
         meta.append((c, 'q'))
-        lines.append(fmt.stage_line('subdiv', c.cid + 's', 64, 'r', c.op, c.lhs, c.rhs))
+        lines.append(fmt.stage_line('subdiv', c.cid + 's', c.prec, 'r', c.op, c.lhs, c.rhs))
         meta.append((c, 's'))
     impl = engine.run_lines(engine.impl_bin('r'), lines, timeout=600)
     model = engine.run_lines(engine.MODEL, lines, timeout=1800)
